@@ -360,7 +360,17 @@ func g7Monotone(fn *ssa.Function, idx int) int {
 		g7mu.Unlock()
 		return k
 	}
+	if j3monoBusy[g7monoKey{fn, idx}] {
+		g7mu.Unlock()
+		return -1 // ip_j3.go: recursion through a nested helper call: unknown, not remembered
+	}
+	j3monoBusy[g7monoKey{fn, idx}] = true
 	g7mu.Unlock()
+	defer func() {
+		g7mu.Lock()
+		delete(j3monoBusy, g7monoKey{fn, idx})
+		g7mu.Unlock()
+	}()
 	res := -1
 	rets := returnsOf(fn)
 	for k, par := range fn.Params {
@@ -392,6 +402,11 @@ func g7Monotone(fn *ssa.Function, idx int) int {
 			case *ssa.BinOp:
 				if c, isC := constInt(x.Y); isC && x.Op == token.ADD && c >= 0 {
 					return mono(x.X, depth+1)
+				}
+			case *ssa.Call, *ssa.Extract:
+				// ip_j3.go: such a value handed to a helper that hands it back advanced (nested helpers)
+				if a := g7GrowsFrom(v); a != nil {
+					return mono(a, depth+1)
 				}
 			}
 			return false
@@ -536,7 +551,7 @@ func (cl *collector) g7PhiRoot(x *ssa.Phi, t term, depth int) {
 	}
 	var root ssa.Value
 	phis := map[*ssa.Phi]bool{}
-	ok := true
+	ok, viaCall := true, false
 	var walk func(v ssa.Value, d int)
 	walk = func(v ssa.Value, d int) {
 		if !ok {
@@ -561,6 +576,13 @@ func (cl *collector) g7PhiRoot(x *ssa.Phi, t term, depth int) {
 				walk(y.X, d+1)
 				return
 			}
+		case *ssa.Call, *ssa.Extract:
+			// ip_j3.go: a step made by a helper that hands its argument back advanced
+			if a := g7GrowsFrom(v); a != nil {
+				viaCall = true
+				walk(a, d+1)
+				return
+			}
 		}
 		if root == nil {
 			root = v
@@ -569,7 +591,7 @@ func (cl *collector) g7PhiRoot(x *ssa.Phi, t term, depth int) {
 		}
 	}
 	walk(x, 0)
-	if !ok || root == nil || len(phis) < 2 {
+	if !ok || root == nil || len(phis) < 2 && !viaCall {
 		return // a single phi with direct steps is handled by the engine itself
 	}
 	if _, isC := constInt(root); isC {
@@ -1034,11 +1056,11 @@ func (a *g7Bounded) establishes(from, to *ssa.BasicBlock) bool {
 	}
 	b, ok := ifi.Cond.(*ssa.BinOp)
 	if !ok {
-		return false
+		return a.j3PredEdge(from, to) // ip_j3.go: the comparison made by a same-package predicate
 	}
 	op, ok := a.cmp(b)
 	if !ok {
-		return false
+		return a.j3BudgetEdge(from, to) // ip_j3.go: a budget min(.., size-pos) counted down by a loop
 	}
 	if from.Succs[1] == to {
 		op = negOp(op)
@@ -1694,6 +1716,18 @@ func (a *g7Verdict) waysNil(v ssa.Value, fr *ipFrame, depth int) []g7VAlt {
 	}
 	if call == nil || call.Call.IsInvoke() {
 		return atom
+	}
+	if ops, ok := j3FirstNonZeroOperands(call); ok && idx == 0 {
+		// ip_j3.go: cmp.Or hands back its first non-zero operand: nil iff every operand is nil
+		out := []g7VAlt{{}}
+		for _, op := range ops {
+			out = g7Cross(out, a.waysNil(op, fr, depth+1))
+			if len(out) > g7MaxAlts {
+				a.over = true
+				return atom
+			}
+		}
+		return out
 	}
 	callee := call.Call.StaticCallee()
 	if !a.local(callee) || a.busy[callee] || idx >= callee.Signature.Results().Len() || !g7IsError(callee.Signature.Results().At(idx).Type()) {
